@@ -14,6 +14,12 @@ def tasks(tier):
             if op.startswith('sorted') and n > 3: continue
             T.append(('sx.tasks', 'run_instance', ('sx.protocols', 'list_op', dict(l=l, op=op, n=n), dict(k=k, no_prss=False), f'mpyc.runtime.Runtime.{op}',
                                                    f'l={l}, n={n}; all input orders incl. ties (symbolic); comparisons by the sgn contract')))
+    for n in ((2, 3, 4, 5) if tier == 'quick' else (2, 3, 4, 5, 6, 7)):
+        for op in ('min_neg', 'max_neg', 'min_max_neg', 'argmin_neg', 'argmax_neg', 'sorted_neg', 'min_sq', 'max_sq', 'argmax_sq'):
+            if op.startswith('sorted') and n > 3: continue
+            if op.endswith('_sq') and n > 4: continue
+            T.append(('sx.tasks', 'run_instance', ('sx.protocols', 'list_op', dict(l=l, op=op, n=n), dict(k=k, no_prss=False), f'mpyc.runtime.Runtime.{op.rsplit("_", 1)[0]} (key)',
+                                                   f'l={l}, n={n}; key = {"negation" if op.endswith("_neg") else "squaring (values -3..3)"}; all input orders incl. ties (symbolic)')))
     for n in (2, 3):
         for op in ('sort', 'sort_rev'):
             T.append(('sx.tasks', 'run_instance', ('sx.seclist_inst', 'seclist', dict(l=6, n=n, op=op), dict(k=k, no_prss=False), 'mpyc.seclists.seclist.sort', f'n={n}')))
@@ -28,6 +34,6 @@ def run(tier, seed):
                   'data independent and, by the 0-1 principle, one SAT query per n decides that the comparator network sorts EVERY input order (and preserves the '
                   'multiset) for all n up to the bound; (ii) sorted (both directions), seclist.sort, min, max, min_max, argmin, argmax (index of the FIRST extreme '
                   'element and its value) run for real on symbolic integers incl. ties, comparisons by the sgn contract (verified under C01), if_else/if_swap real.',
-                  assumptions=['0-1 principle for comparator networks', 'contracts of `<` (sgn) and if_swap/if_else as verified under C01', 'key functions: identity only',
+                  assumptions=['0-1 principle for comparator networks', 'contracts of `<` (sgn) and if_swap/if_else as verified under C01', 'key functions: identity, negation and squaring',
                                'NumPy np_sort not covered'],
                   trusted_base=['z3 5.1', 'CPython 3.12'])
